@@ -87,13 +87,13 @@ Proof.
   assert (G0 : good ext8 [] st0 []) by (apply (good_init ext8 st0)).
   rewrite send_qp_S in H. rewrite (need_recode_ok m 0 (length m) Hw) in H. cbn [bind] in H.
   destruct (Nat.eqb_spec (length m) 0) as [|_]; [lia|]. cbv zeta in H. rewrite Em in H. fold rf in H.
-  destruct (qp_header_spec m helo ext8 0 (length m) Hw Hl Hhelo [] (f8 rf || fline rf) st0 G0) as (rh & E & Hd).
+  destruct (qp_header_spec m helo ext8 0 (length m) Hw Hl Hhelo [] (f8 rf || fline rf) st0 G0) as (h0 & ct & cenc & rh & _ & E & Hd).
   rewrite E in H. destruct rh as [[h mp] st1|why st1]; cbn [bindR bind] in H; [|discriminate].
   unfold hdr_done in Hd. rewrite Em in Hd.
-  destruct Hd as (Hh & (ls & ll & Emp) & _ & (Hpos & Hkind) & H8 & Hlr & t & Gt & Ht & Hcont).
-  destruct Hkind as [->|(bs & bl & ->)]; [|exfalso; apply (Hnm ls ll bs bl Emp)].
+  destruct Hd as (_ & Hh & Emp & _ & (Hpos & Hkind) & H8 & Hlr & t & Gt & Ht & Hcont).
+  destruct Hkind as [->|(bs & bl & ->)]; [|exfalso; apply (Hnm _ _ bs bl Emp)].
   unfold hdr_pos in Hpos. rewrite Em in Hpos.
-  destruct Hcont as (cenc & (Finv & Hnamed & Hsh) & (X1 & X2 & c & Eo & Hc & Hct & U1 & U2)). cbn [mk_of cut_of] in Eo, U1, U2.
+  destruct Hcont as ((Finv & Hnamed & Hsh) & (X1 & X2 & c & Eo & Hc & Hct & U1 & U2)). cbn [mk_of cut_of] in Eo, U1, U2.
   destruct (Nat.ltb_spec (length m) h) as [|_]; [lia|].
   change (0 + h) with h in H.
   destruct (body_content m h (f8 rf || fline rf) st1 ltac:(lia) Hb) as (st2 & O & E2 & Ho2 & Hz2 & Hnz2).
